@@ -167,4 +167,14 @@ theorem C03_wiring :
 theorem C03_skeleton_LoadSession : Sso.Generated.skel_store_LoadSession =
     ["call:Cookie", "if{", "return", "}", "call:UnmarshalSession", "if{", "return", "}", "return"] := by decide
 
+/-- Tie (T1), second wave: helpers, stores and second callers on this property's path (proxy_StaticDirectorFunc, proxy_RewriteDirectorFunc, proxy_upstreamTransport_RoundTrip) — call/branch/store skeletons
+regenerated from the source on every run against the expectations frozen here. -/
+theorem C03_wiring2 :
+    Sso.Generated.skel_proxy_StaticDirectorFunc =
+      ["call:DirectorFunc", "return"] ∧
+    Sso.Generated.skel_proxy_RewriteDirectorFunc =
+      ["func{", "call:ReplaceAllString", "call:urlParse", "if{", "store:req.URL", "return", "}", "call:?", "}", "return"] ∧
+    Sso.Generated.skel_proxy_upstreamTransport_RoundTrip =
+      ["call:getTransport", "call:RoundTrip", "if{", "return", "}", "return"] := by decide
+
 end Sso.Forward
